@@ -7,6 +7,11 @@ HOOK_COMMITS = ["9deeead"]
 
 # property -> (level, technique, level text, level note, design ref)
 CLAIMED = {
+ "C19": ("other",
+         "runtime reflection on the regenerated exported API surface (type identity of constant-gated parameters, closedness of safe types) plus dynamic taint probing of every exported function and method",
+         "The registry of exported functions/types/variables/aliases is regenerated from /repo's sources at every check and linked in; the monitor observes in the running binary that every reviewed trusted-text parameter has an unexported library-defined string type that nothing exported exposes, that safe types are closed structs, and that no exported function or method returns a safe-type value containing a hostile caller string verbatim; ParseFS patterns are checked for confinement. That the compiler rejects non-constant arguments is inferred from the observed types under the Go specification (not observable at run time).",
+         "Trusted: Go assignability/export rules (stated assumption); policy/api_surface.json (reviewed list). A compile-time property cannot be observed by executing code; only its run-time-visible premises are.",
+         "DESIGN.md §5 C19"),
  "C09": ("exploration",
          "Go race detector over many short concurrent runs with hook-injected yields, plus per-operation equality with the sequential (fresh set) reference",
          "Each run shares one fresh set among 2-16 goroutines doing first/repeated executions of members with shared helpers and read-only calls; verif-tagged hooks in the engine log the event order and perturb the schedule. Race reports are counted from the detector's log; every operation result is compared with the same call made alone on a fresh set. Held on the schedules that occurred (distinct interleavings are counted in the evidence).",
